@@ -379,6 +379,13 @@ def judge(run, cases, results):
                 m = re.match(r"synthreq ok n=(\d+)", r.get("synthreq") or "")
                 if m:
                     run.cov["synthetic_requests_compared_with_model"] = run.cov.get("synthetic_requests_compared_with_model", 0) + int(m.group(1))
+                    # do the hypotheses of synthetic_requests_are_laminar (shape of the level array, distinct PU indexes) hold
+                    # on this description?  (non-vacuity at scale; a description accepted by hwloc for which they do not
+                    # hold is listed, it is outside the theorem, not a violation)
+                    hk = "synthetic_theorem_hypotheses_" + ("hold" if " hyp=1" in r["synthreq"] else "fail")
+                    run.cov[hk] = run.cov.get(hk, 0) + 1
+                    if " hyp=1" not in r["synthreq"]:
+                        run.cov.setdefault("synthetic_descriptions_outside_theorem", []).append(name[:200])
                 m = re.match(r"meminserts ok n=(\d+)", r.get("meminserts") or "")
                 if m:
                     run.cov["memory_insertions_replayed_in_model"] = run.cov.get("memory_insertions_replayed_in_model", 0) + int(m.group(1))
